@@ -193,6 +193,23 @@ fn sat_strings(rng: &mut Rng, n: usize) -> Vec<String> {
     v.push(format!("{}°{}′{}″{}‴", h / (6 * HALVING), h % HALVING, h % 2016, third));
     v.push(format!("{}%", (x as f64 / (SUPPLY - 1) as f64) * 100.0));
   }
+  // over-long names whose value is k * 2^64 + v with v in or just past [0, SUPPLY]: out of range, but a
+  // parser accumulating in wrapping u64 arithmetic would accept them as sat SUPPLY - v (seeded r4-C31-1)
+  for i in 0..(n / 20).max(300) {
+    let k: u128 = match i % 4 {
+      0 => 1 + u128::from(rng.below(4)),
+      1 => 1 + u128::from(rng.below(100_000)),
+      _ => u128::from(rng.next() | 1),
+    };
+    let w: u128 = match i % 5 {
+      0 => u128::from(rng.below(3)),
+      1 => u128::from(SUPPLY) - u128::from(rng.below(3)),
+      2 => u128::from(SUPPLY) + 1 + u128::from(rng.below(1000)),
+      _ => u128::from(rng.below(SUPPLY + 1)),
+    };
+    let x = (k << 64) + w;
+    v.push(c32::name_of(x - 1).to_ascii_lowercase());
+  }
   for i in 0..n {
     let s = match i % 6 {
       0 => int_lit(rng, &[0, SUPPLY.into(), B32, B64, u128::MAX]),
